@@ -58,6 +58,8 @@ BindProg(pk, form, abbr, decoded, x, mu) ==
              [op |-> "countersign0", obj |-> "", parent |-> "par", form |-> form, signers |-> <<Sg>>, buf |-> "z"] @@ x>>
       ELSE <<[op |-> "new", obj |-> "cs", kind |-> "csig", m |-> [P |-> P2, U |-> <<>>, sig |-> <<>>]],
              [op |-> "countersign", obj |-> "cs", parent |-> "par", form |-> form, signers |-> <<Sg>>] @@ x>>)
+  \o (IF abbr THEN <<[op |-> "verifycs0", obj |-> "", parent |-> "par", form |-> form, verifiers |-> <<Vf>>, buf |-> "z"] @@ x>>
+      ELSE <<[op |-> "verifycs", obj |-> "cs", parent |-> "par", form |-> form, verifiers |-> <<Vf>>] @@ x>>)
   \o MutStep(pk, mu)
   \o <<[op |-> "probe", obj |-> "par"]>>
   \o (IF abbr THEN <<[op |-> "verifycs0", obj |-> "", parent |-> "par", form |-> form, verifiers |-> <<Vf>>, buf |-> "z"] @@ x>>
@@ -75,6 +77,8 @@ DeepProg(pk, form, abbr, w, PP, CP, x, mu, real) ==
              [op |-> "countersign0", obj |-> "", parent |-> "par", form |-> form, signers |-> <<sg>>, buf |-> "z"] @@ x>>
       ELSE <<[op |-> "new", obj |-> "cs", kind |-> "csig", m |-> [P |-> CP, U |-> <<>>, sig |-> <<>>]],
              [op |-> "countersign", obj |-> "cs", parent |-> "par", form |-> form, signers |-> <<sg>>] @@ x>>)
+  \o (IF abbr THEN <<[op |-> "verifycs0", obj |-> "", parent |-> "par", form |-> form, verifiers |-> <<vf>>, buf |-> "z"] @@ x>>
+      ELSE <<[op |-> "verifycs", obj |-> "cs", parent |-> "par", form |-> form, verifiers |-> <<vf>>] @@ x>>)
   \o MutStep(pk, mu)
   \o <<[op |-> "probe", obj |-> "par"]>>
   \o (IF abbr THEN <<[op |-> "verifycs0", obj |-> "", parent |-> "par", form |-> form, verifiers |-> <<vf>>, buf |-> "z"] @@ x>>
